@@ -93,6 +93,7 @@ FUNCTIONS = {
          'prove(implies(old(g_key in self._cache), sink == old(self._cache[g_key])), "cached-sink-reused")',
          'prove((g_key in self._cache) and self._cache[g_key] == sink, "cached-under-key")']},
     ],
+    inline_calls=['RefCountedSink.__init__'],
     props=['C16'],
   ),
   'SinkStack.Push': dict(
@@ -239,3 +240,17 @@ EXTERNS = {
   'time.time': dict(params=[], returns='real', ensures=['result > 0'],
                     notes='wall clock; monotonicity is stated where a proof needs it'),
 }
+
+FUNCTIONS.update({
+  # a new wrapper is held by nobody and its underlying sink has not been opened through it
+  'RefCountedSink.__init__': dict(
+    cls='RefCountedSink', params={'next_sink': 'Channel'}, returns='none',
+    requires=['next_sink is not None and allocated(next_sink)'],
+    ensures=['RCInv(self)', 'self._ref_count == 0', 'self._next == next_sink'],
+    modifies=['RefCountedSink._ref_count', 'RefCountedSink._open_lock', 'RefCountedSink._open_ar', 'RefCountedSink.g_opens', 'RefCountedSink.g_closes',
+              'MessageSink._next', 'ClientMessageSink._on_faulted', 'Observable.value', 'Observable.g_nsubs', '$cls'],
+    allocates=True,
+    ghost=[{'after': 'self._ref_count = 0', 'do': ['self.g_opens = 0', 'self.g_closes = 0']}],
+    props=['C16'],
+  ),
+})
